@@ -7,6 +7,7 @@ import (
 	"net/http/httptest"
 	"net/url"
 	"strings"
+	"sync"
 	"testing"
 	"unicode"
 
@@ -229,6 +230,51 @@ func propDynamic(t *rapid.T) {
 		t.Fatalf("harness: %q not parsable", want)
 	}
 	n := rapid.IntRange(1, 5).Draw(t, "nreq")
+	var seenQ []string
+	var seenHit []bool
+	defer func() {
+		// the same lookups from several goroutines at once: same answers (normalisation uses no state shared by requests)
+		if t.Failed() || len(seenQ) == 0 || rapid.IntRange(0, 11).Draw(t, "concurrentLookups") != 0 {
+			return
+		}
+		var wg sync.WaitGroup
+		bad := make(chan string, 4)
+		for g := 0; g < 4; g++ {
+			wg.Add(1)
+			go func(g int) {
+				defer wg.Done()
+				for k := 0; k < 300; k++ {
+					i := (g + k) % len(seenQ)
+					if g%2 == 1 && k%2 == 0 {
+						// other traffic: another method, another first segment, no route
+						if rt, _, _ := r.Match("DELETE", "/zz-other-traffic/x/y"); rt != nil {
+							select {
+							case bad <- "Match(DELETE,/zz-other-traffic/x/y) found a route under concurrent lookups":
+							default:
+							}
+							return
+						}
+						continue
+					}
+					rt, _, _ := r.Match("GET", seenQ[i])
+					if (rt != nil) != seenHit[i] {
+						select {
+						case bad <- fmt.Sprintf("Match(GET,%q) found a route=%v under concurrent lookups, alone %v", seenQ[i], rt != nil, seenHit[i]):
+						default:
+						}
+						return
+					}
+				}
+			}(g)
+		}
+		wg.Wait()
+		select {
+		case msg := <-bad:
+			t.Fatalf("%s (registered %q)", msg, reg)
+		default:
+		}
+		ev.Class("dynamic:lookups-repeated-concurrently")
+	}()
 	var earlier []string
 	for i := 0; i < n; i++ {
 		path, vals, _ := model.GenMatching(t, p)
@@ -265,6 +311,10 @@ func propDynamic(t *rapid.T) {
 		hit := code == 200 && strings.HasPrefix(body, "hit:")
 		if reach != hit {
 			t.Fatalf("strict=%v registered %q (=%q): %s request %q normalises to %q, should reach=%v, got %d %q (values %v)", strict, reg, want, method, q, nq, reach, code, body, vals)
+		}
+		if model.Stable(q, strict) {
+			seenQ = append(seenQ, q)
+			seenHit = append(seenHit, hit)
 		}
 		if reach && q != nq {
 			ev.Class("dynamic:reach-decorated")
@@ -314,6 +364,13 @@ func propEncoded(t *rapid.T) {
 	code, body, pv := serve(r, u)
 	if pv != nil {
 		t.Fatalf("panic %v", pv)
+	}
+	// the request belongs to the caller: its URL is as it was, and serving the very same URL again gives the same answer
+	if u2, _ := url.ParseRequestURI(raw); u2 != nil && (u.Path != u2.Path || u.RawPath != u2.RawPath) {
+		t.Fatalf("UseEncodedPath=%v: serving raw %q changed the request's URL to Path=%q RawPath=%q", encoded, raw, u.Path, u.RawPath)
+	}
+	if code2, body2, _ := serve(r, u); code2 != code || body2 != body {
+		t.Fatalf("UseEncodedPath=%v routes %v: raw %q answers %d %q, the same request served again %d %q", encoded, registered, raw, code, body, code2, body2)
 	}
 	if registered[want] {
 		if code != 200 || body != want {
